@@ -3,6 +3,7 @@
 import os, sys
 sys.path.insert(0, os.path.dirname(os.path.abspath(__file__)))
 from states import UNIT as _ST, adt, F_HS, F_MSG, F_AL, F_EC
+from derived_common import newtype_items, INT_SHIMS
 import dtls as _d
 
 F_DTLS = "src/dtls.rs"
@@ -12,13 +13,6 @@ SPEC = r'''
 pub open spec fn be16s(s: Seq<u8>, o: int) -> int { (s[o] as int) * 256 + (s[o + 1] as int) }
 pub open spec fn is_incomplete<T>(r: IResult<&[u8], T>) -> bool { r is Err && r->Err_0 is Incomplete }
 
-// derive(NomBE) on a u16 newtype is be_u16 followed by the constructor (ASSUMED; the Kani leaves assert version == be16)
-impl TlsVersion {
-    #[verifier::external_body]
-    pub fn parse<'a>(i: &'a [u8]) -> (r: IResult<&'a [u8], TlsVersion>)
-        ensures be_post(2, i@, r, |v: TlsVersion| v.0 as int),
-    { unimplemented!() }
-}
 
 // optional trailing block at offset o: present iff a whole u16-prefixed block fits; otherwise absent and nothing consumed
 pub open spec fn ext_present(i: Seq<u8>, o: int) -> bool { i.len() >= o + 2 && i.len() >= o + 2 + be16s(i, o) }
@@ -61,10 +55,12 @@ OPT_HINT = """)(i);
 
 UNIT = {
     "name": "bodies2",
+    "needs_expanded": True,
     "property": ["C04", "C10", "C06", "C01"],
     "prelude": ["shim_nom.rs"],
     "items": _types + [
-        {"file": "-", "kind": "inline", "name": "contracts", "text": SPEC},
+        {"file": "-", "kind": "inline", "name": "contracts", "text": INT_SHIMS + SPEC},
+    ] + newtype_items("TlsVersion", 2) + [
         {"file": F_HS, "kind": "fn", "name": "parse_tls_handshake_msg_hello_retry_request",
          "subst": [
              (r"fn parse_tls_handshake_msg_hello_retry_request\(\s*i: &\[u8\],?\s*\) -> IResult<&\[u8\], TlsMessageHandshake>", "fn parse_tls_handshake_msg_hello_retry_request<'a>(i: &'a [u8]) -> IResult<&'a [u8], TlsMessageHandshake<'a>>"),
